@@ -1,5 +1,6 @@
 import KcpVerif.Lemmas.C09WireRun
 import KcpVerif.Lemmas.C09WireTx
+import KcpVerif.Lemmas.C09WireStream
 import KcpVerif.Lemmas.KcpAcc
 /-!
 C09 `wire_reassembles` (DESIGN.md 7.9, section 13) — "… so that an independent decoder written from
@@ -199,6 +200,17 @@ theorem C09_wire_reassembles_missing (k0 : Kcp) (hf : Fresh k0) (hm : InvMss k0)
     rw [List.take_take, Nat.min_eq_left hni]
   rw [this]
   exact bytesOf_take_prefix _ _
+
+/-- **(b) Stream mode.**  With `stream ≠ 0` at the writer every segment has `frg = 0`, the log always
+ends on a message boundary, and the stream reassembled from the wire IS the payload of all numbered
+segments as soon as each of them has been seen at least once. -/
+theorem C09_wire_reassembles_stream (k0 : Kcp) (hf : Fresh k0) (hm : InvMss k0) (hsn : k0.snd_nxt = 0)
+    (hst : k0.stream ≠ 0) (ops : List Op) (hL : (run { k := k0 } ops).log.length ≤ 2 ^ 32) (all : List DSeg)
+    (hall : C09_Observed (run { k := k0 } ops).wire all)
+    (hseen : ∀ i, i < (run { k := k0 } ops).log.length → Avail all i) :
+    Closed (run { k := k0 } ops).log ∧ Wire.Spec.reassemble all = bytesOf (run { k := k0 } ops).log := by
+  have hc := (run_invStream ops _ (fresh_invStream k0 hf hst)).closed
+  exact ⟨hc, (C09_wire_reassembles_complete k0 hf hm hsn ops hL all hall hseen).2 hc⟩
 
 /-- **(b) Message mode.**  With `stream = 0` at the writer, the messages the specification's
 reassembler delivers (`reassembleMsgs`, whose concatenation is `Wire.Spec.reassemble`:
